@@ -27,10 +27,12 @@ def cfgOfArgs (kv : List (String × String)) : Cfg :=
     arekAllFalse := boolOf (arg kv "arekAllFalse"),
     countMissingOk := boolOf (arg kv "countMissingOk"),
     setErrSingle := boolOf (arg kv "setErrSingle"),
+    fltCondDirect := boolOf (arg kv "fltCondDirect"),
     saveReleasesImmediate := boolOf (arg kv "saveReleasesImmediate"),
     encoding := if arg kv "encoding" == "typeTagged" then .typeTagged else .gobOmitZero }
 
-def ieee : Arith where
+def ieeeWith (expNe0 : Bool) : Arith where
+  expNe0 := expNe0
   fadd t a b :=
     match t with
     | .f64 => (Float.ofBits a.toUInt64 + Float.ofBits b.toUInt64).toBits.toNat
@@ -43,6 +45,8 @@ def ieee : Arith where
     match t with
     | .f64 => Float.ofBits a.toUInt64 == Float.ofBits b.toUInt64
     | .f32 => Float32.ofBits a.toUInt32 == Float32.ofBits b.toUInt32
+
+def ieee : Arith := ieeeWith false
 
 /-! ### parsing -/
 
@@ -168,7 +172,8 @@ structure Clock where
 
 def showTime (ck : Clock) (t : Int) : String :=
   if t == 0 then ""
-  else if ck.nows.contains t then "T"
+  -- a server stamp names the request that took it (`now` of request j is the waited time + j)
+  else if ck.nows.contains t then s!"T{(t - B0) % 1000000}"
   else
     let d := t - B0
     if decide (d > -1000000000000000) && decide (d < 1000000000000000) then s!"b{d}" else s!"a{t}"
@@ -180,8 +185,9 @@ def showIntTy : IntTy → String
 def showVal : Val → String
   | .none => "void"
   | .int t n => s!"{showIntTy t}:{n}"
-  | .flt .f32 b => "f32:" ++ hexPad 8 b
-  | .flt .f64 b => "f64:" ++ hexPad 16 b
+  -- every NaN is shown as the canonical quiet NaN (which NaN an operation yields is the processor's choice)
+  | .flt .f32 b => "f32:" ++ hexPad 8 (if (b / 0x800000) % 0x100 == 0xff && b % 0x800000 != 0 then 0x7fc00000 else b)
+  | .flt .f64 b => "f64:" ++ hexPad 16 (if (b / 0x10000000000000) % 0x800 == 0x7ff && b % 0x10000000000000 != 0 then 0x7ff8000000000000 else b)
   | .str h => "str:" ++ h
   | .bool b => if b then "bool:1" else "bool:0"
   | .bytes h => "bytes:" ++ h
@@ -216,6 +222,7 @@ def showResp (ck : Clock) (verb : String) : Resp → String
 
 def tagId : Tag → String
   | .stickyFlags => "sticky-changed-flags"
+  | .nanCond => "nan-condition-passes"
   | .metaNoCompare => "meta-always-changed"
   | .tsSubSecond => "preepoch-subsecond-accepted"
   | .voidNoClear => "set-void-keeps-value"
@@ -237,7 +244,7 @@ def tagPrio : Tag → Nat
   | .u32delDeadlock => 0 | .u32delNonSlice => 1 | .hiddenSlice => 2 | .voidNoClear => 3 | .sliceMerge => 4
   | .incFailTrace => 5 | .inflightReuse => 6 | .tsSubSecond => 7 | .metaNoCompare => 8 | .setErrDup => 9
   | .arekPrecondition => 10 | .countPrecondition => 11 | .zeroLikeDropped => 12 | .emptyLive => 13 | .resurrected => 0
-  | .stickyFlags => 14
+  | .stickyFlags => 14 | .nanCond => 4
 
 def pickTag (tags : List Tag) : Option Tag :=
   tags.foldl (fun best t => match best with
@@ -254,6 +261,7 @@ inductive Policy where
   deriving DecidableEq
 
 structure DState where
+  ar : Arith := ieee
   cfg : Cfg
   pol : Policy
   pid : String
@@ -262,6 +270,22 @@ structure DState where
   lastTag : Option Tag := none
   opNo : Nat := 0
   inCase : Bool := false
+  ticker : Bool := false      -- kind p1t: the 1 s write ticker is running
+
+/-- the write ticker has run: every treasure waiting for the writer is written (its object gets a
+    file pointer), exactly what close does to the disk image, without closing -/
+def tick (cfg : Cfg) (s : State) : State :=
+  match s.live with
+  | none => s
+  | some i =>
+    { s with live := some { i with
+        disk := Model.flushDisk cfg.encoding i.recs i.waiting i.disk,
+        filed := i.filed ++ (i.waiting.filter fun k => (AL.find k i.recs).isSome && !i.filed.contains k),
+        waiting := [] } }
+
+/-- keys the file format can hold: not empty, at most 65535 bytes (`x@N` stands for N letters x) -/
+def storable (k : Key) : Bool :=
+  k != "" && !(k.startsWith "x@" && ((k.drop 2).toNat?.getD 0) ≥ 65536)
 
 def kindOf (s : String) : Kind := if s.startsWith "mem" then .mem else if s.startsWith "p0" then .p0 else .p1
 
@@ -273,9 +297,9 @@ def stepReq (d : DState) (f : List String) : DState × String :=
     let now := d.ck.now + opNo
     let ck : Clock := { d.ck with nows := now :: d.ck.nows }
     let verb := f.headD ""
-    let o := Model.step d.cfg ieee now d.s req
+    let o := Model.step d.cfg d.ar now d.s req
     let before := Model.abs d.s
-    let sp := Spec.step ieee now before req
+    let sp := Spec.step d.ar now before req
     let after := Model.abs o.s
     let devAny : Bool := !d.s.dead && (decide (sp.2 ≠ o.r) || decide (sp.1 ≠ after))
     let dev : Bool := devAny && d.pol == .c06
@@ -293,30 +317,62 @@ def stepLine (d : DState) (line : String) : DState × String :=
   match f with
   | "case" :: _ :: rest =>
     let kind := (rest.filterMap fun a => match a.splitOn "=" with | ["kind", v] => some (kindOf v) | _ => none).headD .mem
-    ({ d with s := { kind := kind }, ck := {}, lastTag := none, opNo := 0, inCase := true }, line)
+    ({ d with s := { kind := kind }, ck := {}, lastTag := none, opNo := 0, inCase := true, ticker := rest.contains "kind=p1t" }, line)
   | _ =>
     if !d.inCase then (d, "no-case")
     else match f with
     | ["wait", ms] =>
       if d.s.dead then (d, "skip")
-      else ({ d with ck := { d.ck with now := d.ck.now + (ms.toInt?.getD 0) * 1000000 } }, "ok")
+      else
+        let n := ms.toInt?.getD 0
+        let s := if d.ticker && n ≥ 2500 then tick d.cfg d.s else d.s
+        ({ d with s := s, ck := { d.ck with now := d.ck.now + n * 1000000 } }, "ok")
+    | "mget" :: keys =>
+      -- one Get over three swamp entries (this swamp, a swamp that was never created, this swamp):
+      -- a batch answers per swamp, so a missing swamp is an entry, not an error
+      let (d1, r) := stepReq d ("get" :: keys)
+      let parts := r.splitOn "\t"
+      let body := parts.headD ""
+      let flags := String.join ((parts.drop 1).map fun p => "\t" ++ p)
+      if body == "err:FailedPrecondition" then (d1, "mget noswamp / noswamp / noswamp" ++ flags)
+      else if body.startsWith "get " then (d1, s!"mget {body.drop 4} / noswamp / {body.drop 4}" ++ flags)
+      else (d1, r)
     | [verb] =>
       if verb == "closeidle" || verb == "restart" || verb == "close" then
         if d.s.dead then (d, "skip")
         else
           let before := Model.abs d.s
-          let (s', tags) := Model.closeStep d.cfg d.s
+          let (s1, tags) := Model.closeStep d.cfg d.s
+          -- the writer refuses entries whose key the format cannot hold (logged, not reported to the
+          -- client): they are not in the file.  Outside the Lean model, whose theorems are about
+          -- storable keys; reported as its own finding.
+          let lost := d.s.kind != .mem && ((s1.file.getD []).any fun p => !storable p.1)
+          let s' := if lost then { s1 with file := s1.file.map (·.filter fun p => storable p.1) } else s1
           let after := Model.abs s'
           let dev := d.pol == .c05 && decide (Spec.close d.s.kind before ≠ after)
           let tag := tags.head? <|> d.lastTag
-          let flag := if dev then "\t#F:" ++ d.pid ++ "-" ++ (match tag with | some t => tagId t | none => "unattributed") else ""
+          let flag := if dev then "\t#F:" ++ d.pid ++ "-" ++
+                        (if lost then "unstorable-key-acknowledged"
+                         else match tag with | some t => tagId t | none => "unattributed") else ""
           ({ d with s := s', lastTag := (tags.head? <|> d.lastTag) }, "ok" ++ flag)
+      else if verb == "compact" then
+        -- CompactSwamp: refuses a swamp that does not exist, otherwise summons it and rewrites its
+        -- file; no record, stamp or pending write changes
+        if d.s.dead then (d, "skip")
+        else if Model.exists_ d.s then
+          -- a swamp that "exists" without holding a record (left behind by another mechanism) is a
+          -- deviation from the documented answer: reported under the mechanism that created it
+          let ghost := (Model.abs d.s).isEmpty
+          let tag := match d.lastTag with | some t => tagId t | none => "unattributed"
+          let flag := if !ghost then "" else if d.pol == .c06 then "\t#F:" ++ d.pid ++ "-" ++ tag else "\t#D:" ++ tag
+          ({ d with s := Model.withLive d.s (Model.summon d.s) }, "compact ok" ++ flag)
+        else (d, "err:FailedPrecondition")
       else stepReq d f
     | _ => stepReq d f
 
 def run (pid : String) (pol : Policy) (args : List String) : IO UInt32 := do
   let kv := parseArgs args
-  lineLoop stepLine { cfg := cfgOfArgs kv, pol := pol, pid := pid }
+  lineLoop stepLine { cfg := cfgOfArgs kv, pol := pol, pid := pid, ar := ieeeWith (boolOf (arg kv "wireExpNe0")) }
   return 0
 
 end Driver.KV
